@@ -287,3 +287,23 @@ Proof.
     - split; [exact PI|split; [exact Lt|split; [exact Cc|reflexivity]]]. }
   tauto.
 Qed.
+
+(* ---- split calls: result i handed to the merger is the answer to sub-request i ---- *)
+Lemma split_results_nth : forall s subs i r,
+  nth_error subs i = Some r -> nth_error (split_results s subs) i = Some (sub_result s r).
+Proof. intros s subs i r H. unfold split_results. apply map_nth_error. exact H. Qed.
+
+Lemma transport_split_own_response : forall ls s, prun pinit ls = Some s -> bounded s ->
+  forall subs i r f,
+    nth_error subs i = Some r ->
+    nth_error (split_results s subs) i = Some (Some (RVal f)) ->
+    fown f = r /\ exists c k, fid f = wrap32 k /\ lookup_ord k (bsent (cn s c)) = Some r.
+Proof.
+  intros ls s H B subs i r f Hs Hr.
+  rewrite (split_results_nth s subs i r Hs) in Hr. injection Hr as Hr.
+  unfold sub_result in Hr. destruct (qph (rq s r)) eqn:E; try discriminate.
+  injection Hr as ->. eapply transport_own_response; eauto.
+Qed.
+
+Lemma split_results_length : forall s subs, length (split_results s subs) = length subs.
+Proof. intros. unfold split_results. apply map_length. Qed.
